@@ -149,6 +149,8 @@ TableMirror == DOMAIN rpub = DOMAIN published /\ DOMAIN stamp = DOMAIN published
                /\ (\A i \in DOMAIN rpub : rpub[i].nr = published[i].nr /\ rpub[i].ecu = published[i].ecu /\ rpub[i].et = published[i].end)
                /\ (\A j \in DOMAIN stamp : stamp[j] < rix)
 Terminates == <>Idle
+\* vacuity witness for the configs that are meant to reach the known finding: prints one line per idle state with an entry in excess
+KfWitness == (Idle /\ DOMAIN view \ FinalIds # {}) => PrintT(<<"KFHIT", Cardinality(DOMAIN view \ FinalIds)>>)
 
 \* fingerprint view for the model-checking configs (histories dropped; LcDetector's View already drops its own)
 RView == <<View, sched, stamp, rix, rpub, srvLast, srvSent, srvRecv, srvFin, polledN, view, eacLast, eacNr,
